@@ -130,6 +130,9 @@ ERR_KINDS = [
     ('semantic', lambda: 'void bad() { undeclared_var = 1; }', None),
     ('semantic2', lambda: 'char dup1; char dup1;', None),
     ('codegen', lambda: 'char *cgp; void cg() { cgp[X] = 1; }', None),
+    ('decl-type', lambda: 'short *too_complex;', None),
+    ('decl-param-type', lambda: 'void tcf(short *q) { }', None),
+    ('decl-neg-size', lambda: 'char negs[-2];', None),
 ]
 
 
@@ -188,13 +191,20 @@ def build_sources(tier):
                 out.append(('/'.join(n for n, _ in seq) + '/after-warning/' + order + '/' + ek, '\n'.join(lines) + '\n', 'stdin', errline, None))
     # errors inside included files
     for seq in [[c] for c in cons[:9]]:
-        for hdr, hline in (('h_bad_syntax.h', 2), ('h_bad_cpp.h', 3), ('h_bad_sem.h', 2), ('h_error.h', 3), ('h_bad_codegen.h', 2), ('h_nested_bad.h', None)):
+        for hdr, hline in (('h_bad_syntax.h', 2), ('h_bad_cpp.h', 3), ('h_bad_sem.h', 2), ('h_error.h', 3), ('h_bad_codegen.h', 2), ('h_nested_bad.h', None), ('h_nonl_then_err', None), ('a_nonl_then_err', None)):
             lines = []
             for nm, ls in seq:
                 uid += 1; lines += [l.replace('%d', str(uid)) for l in ls]
             lines.append('#include "%s"' % hdr)
             incl = len(lines)
             lines.append('void main() { }')
+            if hdr in ('h_nonl_then_err', 'a_nonl_then_err'):
+                # an included file whose last line has no line feed, then an error in the including file
+                lines[incl - 1] = '#include "%s"' % ('h_nonl.h' if hdr.startswith('h_') else 'a_nonl.inc')
+                for ek, mk, _ in ERR_KINDS[3:7]:
+                    l2 = lines[:incl] + ['char after_inc%d;' % uid, mk()]
+                    out.append(('/'.join(n for n, _ in seq) + '/after:' + hdr + '/' + ek, '\n'.join(l2 + ['void main() { }']) + '\n', 'stdin', len(l2), None))
+                continue
             if hdr == 'h_nested_bad.h': out.append(('/'.join(n for n, _ in seq) + '/in:' + hdr, '\n'.join(lines) + '\n', 'h_bad_syntax.h', 2, ('h_nested_bad.h', 2)))
             else: out.append(('/'.join(n for n, _ in seq) + '/in:' + hdr, '\n'.join(lines) + '\n', hdr, hline, ('stdin', incl)))
     return out
@@ -229,7 +239,8 @@ def site_sources():
                 lines = list(SITE_DECLS) + pre
                 lines += ['void main()' if fn == 'main' else 'void worker()', '{', '  hj = 2;']
                 first = len(lines) + 1
-                lines += ['  ' + l for l in stmt]
+                ind = '' if pn in ('comment3', 'if0') else '  '          # also statements that start in column one
+                lines += [ind + l for l in stmt]
                 last = len(lines)
                 lines += ['  hj = 3;', '}']
                 if fn == 'func': lines += ['void main() { worker(); }']
@@ -242,7 +253,7 @@ def write_headers(d):
     os.makedirs(d, exist_ok=True)
     files = {'h_ok.h': 'char from_header_a;\nchar from_header_b;\n', 'a_ok.inc': '; assembler\n\tNOP\n',
              'h_bad_syntax.h': 'char hb_ok;\nchar hb_broken = ;\n', 'h_bad_cpp.h': 'char hc_ok;\n// c\n#if UNDEFINED_IN_HEADER\n#endif\n',
-             'h_bad_sem.h': 'char hs_dup;\nchar hs_dup;\n', 'h_error.h': 'char he_ok;\n/* c */\n#error stop here\n',
+             'h_bad_sem.h': 'char hs_dup;\nchar hs_dup;\n', 'h_nonl.h': 'char hn1;\nchar hn2;', 'a_nonl.inc': '; asm\n\tNOP', 'h_error.h': 'char he_ok;\n/* c */\n#error stop here\n',
              'h_bad_codegen.h': 'char hg_a, hg_b;\nvoid hg_f() { hg_a = hg_a * hg_b; }\n', 'h_nested_bad.h': 'char hn_ok;\n#include "h_bad_syntax.h"\n'}
     for n, t in files.items(): open(os.path.join(d, n), 'w').write(t)
 
